@@ -11,7 +11,7 @@ pub fn def() -> CheckDef {
     CheckDef {
         id: "C16",
         functions: &["strict::eval::{eval,eval_order,layer_function_to_layers}", "strict::layer::layer", "strict::graph::{operation_adjacency,converse,kahn,...}", "IndexedCoproduct::{map_indexes,map_semifinite,elements,into_iter}", "Array::{scatter_assign,gather,fill}"],
-        bounds_quick: "circuits over {add,sub,and,xor,neg,copy,const,discard} with <=2 operations (every multiset of kinds, both edge orders), W<=4 nodes, <=2 inputs, <=2 outputs; wiring and 64-bit input values symbolic (cyclic, multiply-written and fan-out wirings included)",
+        bounds_quick: "circuits over {add,sub,and,xor,neg,copy,const,discard} with <=2 operations (every multiset of kinds, both edge orders), W<=4 nodes, <=2 inputs, <=2 outputs; wiring and input values symbolic (values are opaque to eval; 16-bit test interpreter) (cyclic, multiply-written and fan-out wirings included)",
         bounds_thorough: "<=3 operations, W<=5",
         jobs,
         budget_s: (170, 1500),
@@ -150,7 +150,11 @@ pub fn jobs_with(tier: Tier, seed: u64, need_rw: bool) -> Vec<Job> {
         Tier::Quick => 60,
         Tier::Thorough => 600,
     });
-    let cfg = base_cfg(tier);
+    // `eval` treats values as opaque (`T: Default + Clone`): the library never computes with them, only the
+    // test interpreter does. The value width therefore does not change what the library does; 16-bit values keep
+    // the final obligations (nests of index-dependent selections around the gates) cheap for the SAT back end.
+    let mut cfg = base_cfg(tier);
+    cfg.vw = 16;
     let (max_ops, wmax) = match tier {
         Tier::Quick => (2, 4),
         Tier::Thorough => (3, 5),
